@@ -712,11 +712,45 @@ def election_fork_across_boundary(rng, winner_first):
     return {"election": True, "n": n, "nodes": 1, "self": [0], "ops": ops}
 
 
+def election_placeholder_at_snapshot(n=4, quiet=2, boundary=100, restart=False):
+    """gc with a BP list (snapshot block on the extend path) while producers still hold the genesis
+    "no vote yet" placeholder, followed by a faulty producer.  Only `quiet` of the n producers
+    (A = 0, B = 1, ...) produce, in rotation with honest windows: with quiet < 2n/3+1 no block ever
+    collects confirmsRequired confirmations, every entry of the proposal map is the placeholder
+    and the LIB is the genesis block.  The snapshot block `boundary` (its state's vote ranking
+    contains every producer, so gc(bps) must keep all entries) is made by B; then B double-confirms:
+    window reaching 2 blocks below the boundary, which gives B alone a proposal.  calcLIB must keep
+    counting the placeholders of the other producers (LIB stays at genesis)."""
+    ops = [["T", 1, list(range(max(n, 6))), n]]
+    lpb = {}
+    tip, nid = 0, 1
+    for no in range(1, boundary + 8):
+        if no <= boundary:
+            bp = (no + (boundary % quiet) + 1) % quiet if quiet > 1 else 0
+            # rotation arranged so that the boundary block is made by B (= 1) when quiet >= 2
+            bp = (1 + (boundary - no)) % quiet if quiet > 1 else 0
+            conf = max(1, no - lpb.get(bp, 0))
+            lpb[bp] = no
+        else:
+            bp = 1 if quiet > 1 else 0           # the faulty producer goes on alone, wide windows
+            conf = no - (boundary - 2)
+        ops.append(["B", nid, tip, bp, conf, 1])
+        ops.append(["D", 0, nid])
+        tip = nid
+        nid += 1
+        if restart and no in (boundary, boundary + 1):
+            ops.append(["S", 0])
+    return {"election": True, "n": n, "nodes": 1, "self": [n - 1], "ops": ops,
+            "shape": "snapshot block %d while %d of %d producers hold only placeholders, then a faulty producer" % (boundary, quiet, n)}
+
+
 def generate_election(rng, quick):
     out = [election_scenario(rng, with_fork=rng.random() < 0.5, bpcount_change=False), election_scenario(rng),
            election_boundary_reorg(rng, 300), election_boundary_reorg(rng, 400),
-           election_fork_across_boundary(rng, False), election_fork_across_boundary(rng, True)]
+           election_fork_across_boundary(rng, False), election_fork_across_boundary(rng, True),
+           election_placeholder_at_snapshot(4, 2), election_placeholder_at_snapshot(5, 3, restart=True)]
     if not quick:
+        out += [election_placeholder_at_snapshot(nn, q, b) for nn, q, b in ((4, 1, 100), (6, 3, 100), (7, 4, 100), (4, 2, 200))]
         out += [election_scenario(rng, with_fork=False, bpcount_change=False)] + [election_scenario(rng) for _ in range(20)] + [election_boundary_reorg(rng) for _ in range(10)]
     return out
 
